@@ -228,8 +228,16 @@ type StatsObserver struct {
 	Closes int
 }
 
+// The observer is harness state: its own counters are not part of the program
+// under test (go:norace), what the library reads to call it is.
+//
+//go:norace
 func (o *StatsObserver) OnOpen(s txfile.FileStats) { o.Open, o.Last = s, s }
-func (o *StatsObserver) OnTxBegin(readonly bool)   { o.Begins++ }
+
+//go:norace
+func (o *StatsObserver) OnTxBegin(readonly bool) { o.Begins++ }
+
+//go:norace
 func (o *StatsObserver) OnTxClose(f txfile.FileStats, tx txfile.TxStats) {
 	o.Closes++
 	if !tx.Readonly && tx.Commit {
